@@ -1,4 +1,5 @@
 import gfapy
+import re
 
 class Alignment:
   """Factory for instances of classes which represent alignments in GFA fields.
@@ -113,6 +114,12 @@ class Alignment:
             and version == "gfa1"):
           return gfapy.CIGAR._from_string(string, valid=valid, version=version)
       break
+    if version == "gfa2" and re.match(r"^[0-9]+$", string):
+      # a trace with a single element
+      t = gfapy.Trace._from_string(string)
+      if not valid:
+        t.validate()
+      return t
     raise gfapy.FormatError("Alignment field contains invalid data {}"
                             .format(repr(string)))
 
